@@ -75,6 +75,17 @@ CORPUS = [
     ('S', [], 1, ['Rq:S:R', 'IN', 'IN', 'Rq:S:7', 'Un:S:R', 'Un:S:7', 'TM']),
     ('G', [1, 2], 1, ['Rq:B:R', 'Rq:S:R', 'Ok:B:1:1', 'Ok:B:2:0', 'Ok:S:1:0', 'Ok:S:2:0', 'Rq:B:9', 'Iv:B:2', 'Ok:B:2:0', 'TM']),
     ('G', [], 1, ['Rq:B:R', 'Rq:S:R', 'Rq:B:7', 'TM']),
+    # an out-of-date word from a dependency (either kind) keeps the target from (re)starting until the next Ok
+    ('B', [1], 1, ['Rq:B:R', 'Ok:B:1:1', 'Ok:S:1:1', 'BD:C', 'Iv:S:1', 'IN', 'Ok:S:1:1', 'BD:C', 'TM']),
+    ('B', [1], 1, ['Rq:B:R', 'Ok:B:1:1', 'Ok:S:1:1', 'BD:C', 'Iv:B:1', 'IN', 'Ok:B:1:1', 'BD:C', 'TM']),
+    ('B', [1, 2], 1, ['Rq:B:R', 'Ok:B:1:1', 'Ok:S:1:1', 'Ok:B:2:1', 'Iv:S:1', 'Ok:S:2:0', 'Ok:S:1:1', 'BD:F', 'IN', 'TM']),
+    ('S', [1], 1, ['Rq:S:R', 'Ok:B:1:1', 'Ok:S:1:1', 'Iv:S:1', 'IN', 'Ok:S:1:1', 'Iv:B:1', 'Ok:B:1:0', 'TM']),
+    ('S', [1], 0, ['Rq:S:R', 'Ok:B:1:1', 'Ok:S:1:1', 'IN', 'Rq:S:7', 'TM']),
+    # a run invalidated in flight is not acknowledged; a failed run stays failed until invalidated
+    ('B', [], 1, ['Rq:B:R', 'IN', 'BD:C', 'BD:C', 'Rq:B:7', 'TM']),
+    ('B', [], 1, ['Rq:B:R', 'BD:F', 'IN', 'BD:C', 'Rq:B:7', 'TM']),
+    ('B', [1], 1, ['Rq:B:R', 'Rq:B:7', 'Ok:B:1:1', 'Ok:S:1:0', 'Iv:B:1', 'BD:C', 'Ok:B:1:1', 'BD:F', 'Un:B:R', 'Un:B:7', 'TM']),
+    ('G', [1, 2], 1, ['Rq:S:R', 'Ok:S:1:1', 'Ok:S:2:0', 'Rq:S:7', 'Iv:S:2', 'Ok:S:2:1', 'Iv:S:1', 'Iv:S:2', 'Ok:S:1:0', 'Ok:S:2:0', 'TM']),
     ('G', [1, 1], 1, ['Rq:S:R', 'Ok:S:1:1', 'Rq:S:8', 'Iv:S:1', 'Iv:S:1', 'Ok:S:1:0', 'TM']),
 ]
 
